@@ -1,7 +1,10 @@
 """Logical step counter: sys.monitoring LINE events in library code objects,
 with a budget that aborts the running call (how a non-terminating loop is
 *observed and stopped*).  No verdict depends on wall-clock time."""
+import signal
 import sys
+import threading
+import time
 
 from .. import repo
 
@@ -35,23 +38,47 @@ class StepMonitor:
             raise BudgetExceeded()
         return None
 
-    def run(self, fn, budget):
-        """returns (outcome, steps): outcome in 'returned' | 'raised:<Type>' | 'budget'"""
+    PER_LINE = 3e-6  # generous CPU allowance per counted library line (measured: 0.4-1 us under the monitor)
+
+    def run(self, fn, budget, opaque_cpu=None):
+        """returns (outcome, steps): outcome in 'returned' | 'raised:<Type>' | 'budget' | 'opaque'.
+
+        opaque_cpu (seconds): CPU time the call may spend *beyond* what its counted lines account for.  It bounds work
+        hidden inside one step (a C-level loop such as a backtracking regular expression), which no line count can see.
+        It is measured in process CPU time (ITIMER_VIRTUAL), not wall-clock time, and only decides when the excess is
+        seconds large; main thread only."""
         self.count = 0
         self.budget = budget
         self.active = True
+        self.opaque_hit = None
+        use_timer = opaque_cpu is not None and threading.current_thread() is threading.main_thread()
+        t0 = time.process_time()
+        if use_timer:
+            def on_timer(sig, frm):
+                excess = (time.process_time() - t0) - self.count * self.PER_LINE
+                if excess > opaque_cpu and self.active:
+                    self.active = False
+                    self.opaque_hit = excess
+                    raise BudgetExceeded()
+
+            old = signal.signal(signal.SIGVTALRM, on_timer)
+            signal.setitimer(signal.ITIMER_VIRTUAL, 0.2, 0.2)
         mon.set_events(TOOL, mon.events.LINE)
         try:
             try:
                 fn()
                 out = "returned"
             except BudgetExceeded:
-                out = "budget"
+                out = "opaque" if self.opaque_hit is not None else "budget"
             except Exception as e:  # noqa: BLE001
                 out = "raised:" + type(e).__name__
         finally:
             self.active = False
             mon.set_events(TOOL, 0)
+            if use_timer:
+                signal.setitimer(signal.ITIMER_VIRTUAL, 0, 0)
+                signal.signal(signal.SIGVTALRM, old)
+        self.cpu = time.process_time() - t0
         return out, self.count
 
     def close(self):
